@@ -10,7 +10,7 @@ import vlib
 
 LEVEL = "model_checking"
 BS_QUICK = [0, 1, 2, 3, 4, 5, 6, 7, 8, 13, 16, 17, 31, 32, 33, 40, 64, 100, 128, 130, 256]
-BS_THOROUGH = list(range(0, 131)) + [255, 256, 257, 300, 512, 1000, 4096, 65536]
+BS_THOROUGH = list(range(0, 131)) + [255, 256, 257, 300, 511, 512, 513, 1000, 2048]
 
 
 def run(R):
@@ -34,7 +34,7 @@ def run(R):
             out = R.path("pad", "%s-%d.ndjson" % (variant, i))
             R.run([exe, str(R.seed + i), "300" if thorough else "80", out] + [str(b) for b in g], ok_codes=(0, 70))
             files.append(out)
-    total, bad = R.oracle("trace/OraclePad.tla", files)
+    total, bad = R.oracle("trace/OraclePad.tla", files, timeout=5000)
     for b in bad[:5]:
         R.violation("padding record rejected by lib/Pad.tla: %s" % json.dumps(b)[:300], {"records": [b]}, name="pad")
     if len(bad) > 5:
@@ -44,7 +44,7 @@ def run(R):
     R.cov["variants"] = variants
     R.sample_line(files[0], 5)
     R.sample_line(files[0], 10**9)
-    R.assumptions += ["block sizes above 65536 are not executed (the loop is linear in the block size)",
+    R.assumptions += ["block sizes above 2048 are not executed (the loop is linear in the block size)",
                       "length + padding overflowing size_t (misuse) is covered by C12, not here"]
 
 
